@@ -166,6 +166,7 @@ func settingsOf(o *options.Options) []cfgSetting {
 	leg("skip-claims-from-profile-url", pr.SkipClaimsFromProfileURL)
 	leg("backend-logout-url", pr.BackendLogoutURL)
 	leg("entra-id-allowed-tenant", pr.MicrosoftEntraIDConfig.AllowedTenants)
+	leg("prefer-email-to-user", o.LegacyPreferEmailToUser)
 	// a deprecated twin left over in an old configuration: documented to count only while the current option is unset
 	if pr.CodeChallengeMethod != "" && hash64(pr.ClientID+pr.OIDCConfig.IssuerURL)%2 == 0 {
 		other := "plain"
@@ -197,7 +198,7 @@ var documentedDefaults = map[string]interface{}{
 	"oidc-email-claim": "email", "oidc-groups-claim": "groups", "user-id-claim": "email", "skip-oidc-discovery": false,
 	"oidc-jwks-url": "", "oidc-public-key-file": []string{}, "login-url": "", "redeem-url": "", "profile-url": "",
 	"code-challenge-method": "", "allowed-group": []string{}, "skip-claims-from-profile-url": false, "backend-logout-url": "",
-	"entra-id-allowed-tenant": []string{},
+	"entra-id-allowed-tenant": []string{}, "prefer-email-to-user": false,
 }
 
 func isDocumentedDefault(s cfgSetting) bool {
@@ -447,6 +448,9 @@ func (e *testEnv) viaConfigPath(o *options.Options) *options.Options {
 		e.c.count("cfgpath:direct")
 		return o
 	}
+	if o.LegacyPreferEmailToUser && strings.HasPrefix(form, "alpha") {
+		form = strings.Replace(form, "alpha", "legacy", 1) // the option only exists as a legacy flag
+	}
 	var core, all []cfgSetting
 	for _, s := range ss {
 		// a setting at its documented default is what a user leaves out (three times out of four): the
@@ -569,7 +573,6 @@ func (e *testEnv) viaConfigPath(o *options.Options) *options.Options {
 		ob.UpstreamServers = o.UpstreamServers
 		ob.InjectRequestHeaders = o.InjectRequestHeaders
 		ob.InjectResponseHeaders = o.InjectResponseHeaders
-		ob.LegacyPreferEmailToUser = o.LegacyPreferEmailToUser
 		ob.Server = o.Server
 		ob.MetricsServer = o.MetricsServer
 	}
